@@ -239,7 +239,8 @@ func TestVerifC03Dec(t *testing.T) {
 	var dss []*vfc03.Dataset
 	var descs []string
 	for i := 0; i < n; i++ {
-		ds := g.File(vfc03.FileOpts{MaxKeys: 5, Now: 946684800000, MultiDB: true, Versions: []int{1, 6, 7, 8, 9, 10, 11, 12, 13}})
+		ds := g.File(vfc03.FileOpts{MaxKeys: 5, Now: 946684800000, MultiDB: true, Modules: true, Huge: i == n/2,
+			Versions: []int{1, 6, 7, 8, 9, 10, 11, 12, 13}})
 		dss = append(dss, ds)
 		descs = append(descs, ds.Desc)
 	}
@@ -289,6 +290,13 @@ func TestVerifC03Dec(t *testing.T) {
 // vfC03CheckL1 is the decoder-level monitor.
 func vfC03CheckL1(s *vfutil.Session, ds *vfc03.Dataset, o vfc03.GenOut, out []string, c vfC03L1Cfg, desc string) {
 	replay := map[string]interface{}{"op": "l1 " + c.String() + " " + desc}
+	if ds.ModuleAux && c.modaux {
+		// module aux data is refused under the fail policy: the parse must end in an error
+		if len(out) == 0 || out[len(out)-1] != "err" {
+			s.Violate("module-aux-not-refused", "module aux data was accepted under the fail policy", replay)
+		}
+		return
+	}
 	if len(out) == 0 || out[len(out)-1] != "done" {
 		s.Violate("valid-snapshot-rejected", "a well-formed snapshot did not parse to Done", replay)
 		return
